@@ -75,9 +75,33 @@ def reuse_feed_stream(run, driver, n):
         A.stage2(run, rec, outs, (PROP,))
 
 
+def client_reuse_stream(run, driver, n):
+    """one client object serves a state-level office and then a district office (or the other way round): the second run is checked
+    like any other - nothing the client kept from the first run (aggregate key lists, configuration, frames) may enter it"""
+    from harness import election as E
+
+    rng = run.rng
+    for k in range(n):
+        pi = ["nonparametric", "gaussian", "bootstrap"][k % 3]
+        first_district = k % 2 == 1
+        c1 = A.gen_case(rng, pi_method=pi, district=first_district, roles=["reporting"] * 6 + ["partial"] * 3)
+        c2 = A.gen_case(rng, pi_method=pi, district=not first_district, roles=[r for r in E.ROLES if r != "nan-estimand"])
+        for c in (c1, c2):
+            c["aggregates"] = [a for a in ["postal_code", "county_fips", "district", "unit"] if a != "district" or c["election"].office == "H"]
+        cl = E.client_mod().ModelClient()
+        A.run_case(c1, client=cl)
+        rec = A.stage1(run, c2, (PROP,), client=cl)
+        run.count("client reused across offices")
+        outs = None
+        if driver is not None and rec["ops"]:
+            outs = driver.run(rec["ops"])
+        A.stage2(run, rec, outs, (PROP,))
+
+
 def explore(run, driver, budget):
     K.explore(run, driver, budget, PROP, RULE, corpus=(kf1_case, kf4_case))
     reuse_feed_stream(run, driver, {"quick": 4, "thorough": 120, "search": 20}[budget])
+    client_reuse_stream(run, driver, {"quick": 4, "thorough": 120, "search": 20}[budget])
 
 
 def replay(run, driver, payload):
